@@ -488,6 +488,29 @@ def multi_assign(a, b=2):
   return ('multi_assign', x + y, len(acc))
 
 
+def dup_kw_caller(a, b=2):
+  # a call site whose explicit keyword and **mapping overlap at run time: TypeError before the callee runs
+  LOG.append(('dup_kw_caller', a, b))
+  kw = {'c': a}
+  if a > 0:
+    kw['b'] = a
+  k2 = {'z': 1}
+  k3 = {'z': 2} if b > 5 else {'y': 2}
+  return ('dup_kw', fn(a, b=b, **kw), fn(a, **k2, **k3))
+
+
+class Texty(object):
+
+  def text(self, a, b=2):
+    LOG.append(('Texty.text', a, b))
+    s = \"\"\"first line
+      an indented continuation line
+    last line\"\"\"
+    if a > 0:
+      return ('text', s, a)
+    return ('text', s, -a)
+
+
 def kwonly_required(a, b=2, *, k):
   LOG.append(('kwonly_required', a, b, k))
   if a > 0:
@@ -624,6 +647,7 @@ ARGSETS = {
     'dec': [((__import__('decimal').Decimal('-1.234'),), None), ((), None)],
     'one': [((1,), None), ((), None)],
     'tape1': [(('@tape',), None), (('@tape',), {})],
+    'paths': [(('a', 'b'), None), (('/x', 'y', 'z'), {}), ((1,), None)],
     'kwonly': [((1,), {'k': 5}), ((1,), None), ((1, 2), {}), ((), {'k': 1}), ((-1,), {'k': 0, 'b': 9})],
     'len': [(([1, 2, 3],), None), (((),), {}), ((5,), None), ((), None)],
     'abs': [((-3,), None), ((2.5,), {}), (('x',), None)],
@@ -721,6 +745,10 @@ def build_pool(lane, which):
   add('raiser', 'function', U.raiser, fnname='raiser')
   add('raiser_passthrough', 'function', U.raiser_passthrough, fnname='raiser_passthrough')
   add('kwonly_required', 'function', U.kwonly_required, argsets='kwonly', fnname='kwonly_required')
+  add('dup_kw_caller', 'function', U.dup_kw_caller, fnname='dup_kw_caller')
+  add('multiline_string_method', 'function', U.Texty().text, fnname='text')
+  import posixpath
+  add('posixpath_join', 'allowlisted_module', posixpath.join, argsets='paths', fnname='join', module_rule='posixpath')
   add('super_in_branch', 'function', U.DerivedGreeter().greet, fnname='greet')
   add('async_fn', 'coroutine', U.async_fn)
   add('async_method', 'coroutine', U.AsyncHolder().ameth)
@@ -895,7 +923,7 @@ def _install_observers():
       code = getattr(getattr(fn, '__func__', fn), '__code__', None)
       OBS['requests'].append(code.co_name if code is not None else '?')
       OBS['events'].append(('req', _rem_id(fn), common._opts_tuple(getattr(user_context, 'options', None)),
-                            code.co_name if code is not None else '?'))
+                            code.co_name if code is not None else '?', _rem_obj(fn)))
     return orig(self, fn, user_context)
   transform_function.__wrapped_stage__ = orig
   klass.transform_function = transform_function
@@ -906,10 +934,17 @@ def _install_observers():
     if OBS['on']:
       OBS['fallbacks'].append((_rem_id(f), common._opts_tuple(options), type(exc).__name__))
       if hasattr(getattr(f, '__func__', f), '__code__'):
-        OBS['events'].append(('fb', _rem_id(f), common._opts_tuple(options), type(exc).__name__))
+        OBS['events'].append(('fb', _rem_id(f), common._opts_tuple(options), type(exc).__name__, _rem_obj(f)))
     return fb(f, args, kwargs, options, exc)
   _fall_back_unconverted.__wrapped_stage__ = fb
   api._fall_back_unconverted = _fall_back_unconverted
+
+
+def _rem_obj(f):
+  """The object whose identity (and lifetime!) the remembered verdict is tied to."""
+  while isinstance(f, functools.partial):
+    f = f.func
+  return getattr(f, '__func__', f)
 
 
 def _rem_id(f):
@@ -990,10 +1025,11 @@ RELATED = {
     'art_dnc': ['fn'], 'art_convert': ['smeth'], 'art_to_graph': ['nested', 'nested2'],
     'bound': ['unbound', 'partial_method'], 'cmeth': ['cmeth_inst'], 'np_method': ['np_sub_overridden', 'np_sub_inherited'],
     'mod:numpy.simpool': ['mod:numpy_like'], 'mod:malt.simpool': ['mod:malty'], 'tc_method': ['bound'],
-    'cached': ['fn'], 'gen': ['fn'], 'len': ['len_tape'],
+    'cached': ['fn'], 'gen': ['fn'], 'len': ['len_tape'], 'posixpath_join': ['fn', 'nested', 'lam', 'smeth'],
+    'fn': ['posixpath_join'],
 }
 
-CONVERTIBLE = ['caller', 'caller', 'lists_user', 'multi_assign', 'multi_assign', 'super_in_branch', 'twice_caller', 'twice_caller', 'kwonly_required', 'symbolic_eq_callable', 'strict_eq_callable', 'pseudo_file_fn', 'badrepr_method', 'badrepr_callable', 'local_gen_caller', 'decorated_local_caller', 'metaclass_call2', 'shadowed_call', 'fn', 'star_caller', 'nested2', 'raiser_passthrough', 'raiser', 'falsy_bag_method', 'falsy_obj_method', 'nt_method', 'metaclass_call', 'slotted_callable', 'manual_bound', 'fn', 'lam', 'nested', 'bound', 'unbound', 'cmeth', 'cmeth_inst', 'smeth', 'callable',
+CONVERTIBLE = ['caller', 'caller', 'dup_kw_caller', 'multiline_string_method', 'lists_user', 'multi_assign', 'multi_assign', 'super_in_branch', 'twice_caller', 'twice_caller', 'kwonly_required', 'symbolic_eq_callable', 'strict_eq_callable', 'pseudo_file_fn', 'badrepr_method', 'badrepr_callable', 'local_gen_caller', 'decorated_local_caller', 'metaclass_call2', 'shadowed_call', 'fn', 'star_caller', 'nested2', 'raiser_passthrough', 'raiser', 'falsy_bag_method', 'falsy_obj_method', 'nt_method', 'metaclass_call', 'slotted_callable', 'manual_bound', 'fn', 'lam', 'nested', 'bound', 'unbound', 'cmeth', 'cmeth_inst', 'smeth', 'callable',
                'decorated', 'caller', 'raiser', 'partial1', 'partial_nested', 'partial_method',
                'partial_chain', 'partial_chain3', 'partial_subclass',
                'mod:malty', 'mod:numpy_like', 'mod:reporting', 'mod:copyx', 'np_sub_overridden',
@@ -1059,7 +1095,14 @@ def make_plan(seed, index, tier, sub):
   for op in ops:
     if Z['targets'][op['target']].lists_ok and rng.random() < 0.5:
       op['opts']['feats'] = 9          # Feature.LISTS, only for targets that do not append to globals
-  return {'prop': 'C13', 'ops': ops, 'strategy': {'name': 'serial'}, 'faults': []}
+  # the optional `wrapt` package is imported lazily by many programs: in some histories it only
+  # appears in sys.modules after the first calls (wrapt targets are used only afterwards)
+  wrapt_at = rng.randrange(2, max(3, len(ops) // 2)) if rng.random() < 0.35 else 0
+  if wrapt_at:
+    for k in (wrapt_at, min(wrapt_at + 2, len(ops))):
+      ops.insert(k, {'target': 'wrapt', 'args': rng.randrange(5), 'opts': _gen_opts(rng),
+                     'status': 'UNSPECIFIED', 'via_scope': False, 'strict': False, 'fault': None})
+  return {'prop': 'C13', 'ops': ops, 'strategy': {'name': 'serial'}, 'faults': [], 'wrapt_at': wrapt_at}
 
 
 # ---------------------------------------------------------------------------
@@ -1272,15 +1315,24 @@ class Run(object):
         ', strict' if op.get('strict') else '', ', fault=%s' % _fault_str(fault) if fault else '')
     # ---- T4 (any function, callees included): once a conversion failure of a function under
     # some options has been handled, no conversion of it under equal options is requested again
+    import weakref
     for ev in OBS['events']:
       key = (ev[1], ev[2])
       if ev[0] == 'fb':
         if ev[1] not in Z['exempt_ids']:
-          self.failed_fns.setdefault(key, i)
-      elif key in self.failed_fns and not op.get('strict'):
-        self.viol('T4', '%s: a conversion of %s under %s was requested again although its failure under equal '
-                  'options was handled at op%d' % (where, ev[3], ev[2], self.failed_fns[key]), 'callee-not-remembered')
-        break
+          try:
+            # "remembered" lasts as long as the function object lives: local functions and closures are
+            # re-created on every call of their parent, and a dead one's address is soon reused
+            self.failed_fns[key] = (i, weakref.ref(ev[4]))
+          except TypeError:
+            pass
+      else:
+        ent = self.failed_fns.get(key)
+        if ent is not None and ent[1]() is ev[4] and not op.get('strict'):
+          self.viol('T4', '%s: a conversion of %s under %s was requested again although its failure under equal '
+                    'options was handled at op%d' % (where, ev[3], ev[2], ent[0]), 'callee-not-remembered')
+          break
+    OBS['events'] = []      # (drops the strong references to short-lived functions)
     rem_key = (_rem_id(t.a), eff_tuple)
     was_remembered = rem_key in self.remembered
     # whatever the call wrapper fell back on in this op is remembered from now on
@@ -1398,8 +1450,19 @@ class Run(object):
     plan = self.plan
 
     def target():
-      for i, op in enumerate(plan['ops']):
-        self.do_op(i, op)
+      wat = plan.get('wrapt_at') or 0
+      saved = sys.modules.pop('wrapt', None) if wat else None
+      try:
+        for i, op in enumerate(plan['ops']):
+          if wat and i == wat and saved is not None:
+            sys.modules['wrapt'] = saved         # "import wrapt" happens here
+            self.stats['late_wrapt_import'] = 1
+          if wat and i < wat and op['target'] == 'wrapt':
+            continue
+          self.do_op(i, op)
+      finally:
+        if saved is not None:
+          sys.modules['wrapt'] = saved
     self.sim.add_thread('client', target)
     return self.sim.run()
 
